@@ -187,6 +187,7 @@ Proof. unfold add_mem. split_args typs; crush. Qed.
 Lemma funcInChanOut_nocrash t ro : funcInChanOut t ro <> inr Crash /\ funcInChanOut t ro <> inl None.
 Proof.
   unfold funcInChanOut. destruct t; try (split; discriminate).
+  destruct variadic; [split; discriminate|].
   destruct ps as [|p1 [|p2 ps]]; cbn; try (split; discriminate).
   destruct rs as [|r1 [|r2 rs]]; cbn; try (split; discriminate).
   destruct r1; try (split; discriminate).
@@ -219,6 +220,7 @@ Lemma add_traverse_nocrash typs : add_traverse typs <> Crash.
 Proof.
   unfold add_traverse. split_args typs; try discriminate.
   destruct b; try discriminate. destruct a; try discriminate.
+  destruct variadic; cbn [negb need]; [discriminate|].
   destruct ps as [|p1 [|p2 ps]]; cbn; try discriminate.
   apply need_nocrash.
   destruct rs as [|r1 [|r2 [|r3 rs]]]; cbn; try discriminate. crush.
